@@ -59,8 +59,10 @@ Definition ex_prog_of (loc : bool) : program :=
         Rename 0 ex_o; StateUpsert [ex_o]].
 Definition vex_a : list vstep :=
   [Base (ExistsCheck ex_o false); Base (Mkdir [97; 97]); Base (ProbeOpen ex_o); Base (ProbeUnlink ex_o);
-   Base (CopyTmp 0 ex_o); Base (Rename 0 ex_o); VerifyDrop ex_o].
-Definition vex_sched : list nat := [0; 0; 0; 0; 0; 0; 1; 1; 1; 0; 1; 1; 1; 1; 1]%nat.
+   Base (CopyTmp 0 ex_o); Base (Rename 0 ex_o); VerifyBad ex_o; VerifyDrop ex_o].
+Definition vex_sched : list nat := [0; 0; 0; 0; 0; 0; 1; 1; 1; 0; 0; 1; 1; 1; 1; 1]%nat.
+(* the remove delayed until writer 1 has re-created the object: it deletes the COMPLETE object *)
+Definition vex_sched_lost : list nat := [0; 0; 0; 0; 0; 0; 1; 1; 1; 0; 1; 1; 1; 0; 1; 1]%nat.
 
 Theorem verify_all_succeed_refuted : forall loc,
   exists w q,
@@ -75,3 +77,14 @@ Qed.
 Example vex_a_is_the_legal_prefix : forall loc,
   firstn 6 vex_a = map Base (firstn 6 (ex_prog_of loc)).
 Proof. intros [|]; reflexivity. Qed.
+
+(* worse: if writer 0's remove (second half of its check) is delayed until writer 1 has re-created the
+   object, it deletes the COMPLETE object: writer 1 ran its whole legal program and reported nothing,
+   yet the requested object is absent from the final store *)
+Theorem verify_store_incomplete_refuted : forall loc,
+  exists w fl q,
+    vrun loc [ex_its; ex_its] vex_sched_lost (w0, []) [vex_a; map Base (ex_prog_of loc)] = Some ((w, fl), q) /\
+    vdone q = true /\ fl = [(0%nat, ex_o)] /\ view w ex_o = None.
+Proof.
+  intros [|]; eexists; eexists; eexists; (split; [vm_compute; reflexivity|split; [vm_compute; reflexivity|split; vm_compute; reflexivity]]).
+Qed.
